@@ -284,8 +284,10 @@ func c14Corpus() []*c14Bundle {
 	return []*c14Bundle{
 		mk("mapkey-quote", "/** */\n{template .t}\n{let $m: ['a\"b': 1] /}{$m['a\"b']}\n{/template}\n"),
 		mk("mapkey-backslash", "/** */\n{template .t}\n{let $m: ['a\\\\': 1, 'c\\nd': 2] /}{length(keys($m))}\n{/template}\n"),
-		mk("isfirst-outside-loop", "/** @param a */\n{template .t}\n{if isFirst($a)}x{/if}\n{/template}\n"),
-		mk("islast-outside-loop", "/** @param a */\n{template .t}\n{if isLast($a)}x{/if}{index($a)}\n{/template}\n"),
+		mk("isfirst-outside-loop", "/** */\n{template .t}\n{if isFirst()}x{/if}\n{/template}\n"),
+		mk("islast-outside-loop", "/** @param a */\n{template .t}\n{if isLast($a.b ?: 1)}x{/if}{index(1)}\n{/template}\n"),
+		mk("loopfunc-non-variable", "/** @param l */\n{template .t}\n{foreach $x in $l}{if isLast(1)}x{/if}{index()}{$x}{/foreach}\n{/template}\n"),
+		mk("float-literals", "/** @param a */\n{template .t}\n{2.0}{$a + 3.0}{1.5}{0.0}{-0.0}{1000000.0}{1e3}\n{/template}\n"),
 		mk("range-no-args", "/** */\n{template .t}\n{foreach $i in range()}{$i}{/foreach}\n{/template}\n"),
 		mk("range-four-args", "/** */\n{template .t}\n{for $i in range(1, 2, 3, 4)}{$i}{/for}\n{/template}\n"),
 		mk("func-too-few-args", "/** @param a */\n{template .t}\n{length()}{$a}\n{/template}\n"),
